@@ -14,17 +14,19 @@ from checks.c01 import A, L, X, Y, Z, make_world, names
 
 PROPERTY = "C02"
 LEVEL = "exploration"
-RULE = ("all queries of the negation-normal conjunctive/else-if fragment with <= n leaves: atoms and negated atoms "
+RULE = ("all queries of the negation-normal conjunctive/else-if fragment with <= n leaves (thorough: additionally 4 leaves over "
+        "a core of four atoms): atoms and negated atoms "
         "(comparisons, Predicate subclasses, symbolic functions), and_, and or_ only between operands over the same "
         "variable set (computed by the generator), 1-3 variables, several selections and domain contents; the "
         "MULTISET of rows must equal the projection of every satisfying total assignment; the() and "
         "an(Exactly(count-1|count|count+1)) must behave as the true count dictates. non-trivial = distinct cases "
         "with at least one solution and at least one non-solution")
 ASSUMPTIONS = ["row order is not compared (C10 compares prefixes)", "CPython 3.12"]
-BOUNDS = {"quick": {"leaves_2vars": 3, "leaves_3vars": 2}, "thorough": {"leaves_2vars": 4, "leaves_3vars": 3}}
+BOUNDS = {"quick": {"leaves_2vars": 3, "leaves_3vars": 2},
+          "thorough": {"leaves_2vars": 3, "leaves_2vars_core_atoms": 4, "core_atoms": 4, "leaves_3vars": 3}}
 CHUNK = 300
 RECYCLE_CHUNKS = 6
-BUDGET_S = {"quick": 600, "thorough": 3000}
+BUDGET_S = {"quick": 600, "thorough": 4000}
 
 ATOMS2 = [
     ("cmp", "eq", A(X, "a"), L(0)),
@@ -99,6 +101,15 @@ def cases(tier, seed):
                         out.append((q, d, "counts"))
                     if n <= 2 and d[0] in ("D5", "sub3") and kind == "entity":
                         out.append((q, d, "reuse"))
+    # thorough: 4 leaves over a core of four atoms (one per kind: literal comparison, join, order, Predicate)
+    if BOUNDS[tier].get("leaves_2vars_core_atoms"):
+        core = [ATOMS2[i] for i in (0, 3, 4, 6)]
+        memo = {}
+        for c in nnf_conds(BOUNDS[tier]["leaves_2vars_core_atoms"], core, memo):
+            for kind, sels in SELS2[:3]:
+                q = mkq(kind, sels, c, ("x", "y"))
+                for d in DOMS[:2]:
+                    out.append((q, d, "an"))
     memo = {}
     for n in range(1, BOUNDS[tier]["leaves_3vars"] + 1):
         for c in nnf_conds(n, ATOMS3, memo):
